@@ -1,0 +1,17 @@
+//go:build verif
+// +build verif
+
+package miner
+
+import (
+	"time"
+
+	lpb "github.com/xuperchain/xupercore/bcs/ledger/xledger/xldgpb"
+	xctx "github.com/xuperchain/xupercore/kernel/common/xcontext"
+)
+
+// VerifPackBlock exposes packBlock (award, timer tx, pool prefix under the size limit) to the
+// verification harness.
+func (t *Miner) VerifPackBlock(ctx xctx.XContext, height int64, now time.Time, consData []byte) (*lpb.InternalBlock, error) {
+	return t.packBlock(ctx, height, now, consData)
+}
